@@ -4,7 +4,8 @@
 //! 4 duration), skills(6), locked_jobs(7, only when the case has locks), activity_limit(10).
 //! Modes: "eval" (default), "skills" (route-level skills verdict, merge, JobSkills::new), "lockrule" (one strict rule against
 //! prev / target / next through the real LockingConstraint), "size" (route-level verdict of the activity-limit constraint for a
-//! Multi job with k sub-jobs).
+//! Multi job with k sub-jobs), "e2e" (a pragmatic problem with matrices - used for vicinity clustering x skills - read by the
+//! real reader, solved by the real solver, written by the real writer: the oracle looks at the skills of every served job).
 use serde_json::{json, Value};
 use std::collections::HashSet;
 use std::sync::Arc;
@@ -404,8 +405,57 @@ fn run_size(case: &Value) -> Value {
     json!({"verdict": verdict, "count": route_ctx.route().tour.job_activity_count()})
 }
 
+/// {"problem": pragmatic problem, "matrices": [..], "generations": n} -> {"solution": document} | {"error": ..}
+fn run_e2e(case: &Value) -> Value {
+    use vrp_core::prelude::{Solver, VrpConfigBuilder};
+    use vrp_core::rosomaxa::utils::{DefaultRandom, Parallelism};
+    use vrp_pragmatic::format::problem::PragmaticProblem;
+    use vrp_pragmatic::format::solution::{write_pragmatic, PragmaticOutputType};
+    let problem_text = case["problem"].to_string();
+    let matrices: Vec<String> =
+        case["matrices"].as_array().map(|ms| ms.iter().map(|m| m.to_string()).collect()).unwrap_or_default();
+    let core_problem = match (problem_text, matrices).read_pragmatic() {
+        Ok(p) => Arc::new(p),
+        Err(errs) => return json!({"error": format!("read: {}", errs)}),
+    };
+    let environment = Arc::new(Environment::new(
+        Arc::new(DefaultRandom::new_repeatable()),
+        None,
+        Parallelism::default(),
+        Arc::new(|_: &str| {}),
+        false,
+    ));
+    let config = VrpConfigBuilder::new(core_problem.clone())
+        .set_environment(environment)
+        .prebuild()
+        .and_then(|b| b.with_max_generations(Some(usize_of(&case["generations"]))).build());
+    let config = match config {
+        Ok(c) => c,
+        Err(e) => return json!({"error": format!("config: {}", e)}),
+    };
+    let solution = match Solver::new(core_problem.clone(), config).solve() {
+        Ok(s) => s,
+        Err(e) => return json!({"error": format!("solve: {}", e)}),
+    };
+    let mut buf = std::io::BufWriter::new(Vec::new());
+    if let Err(e) = write_pragmatic(&core_problem, &solution, PragmaticOutputType::OnlyPragmatic, &mut buf) {
+        return json!({"error": format!("write: {}", e)});
+    }
+    let bytes = buf.into_inner().unwrap_or_default();
+    match serde_json::from_slice::<Value>(&bytes) {
+        Ok(mut doc) => {
+            if let Some(obj) = doc.as_object_mut() {
+                obj.remove("extras");
+            }
+            json!({"solution": doc})
+        }
+        Err(e) => json!({"error": format!("written solution is not JSON: {}", e)}),
+    }
+}
+
 fn run_case(case: &Value) -> Value {
     match case["mode"].as_str().unwrap_or("eval") {
+        "e2e" => run_e2e(case),
         "skills" => run_skills(case),
         "lockrule" => run_lockrule(case),
         "size" => run_size(case),
